@@ -240,6 +240,36 @@ static TCMSlot g_tcm;
 struct SPLayout { ThreadContext* p; void* ctrl; };             // std::shared_ptr<ThreadContext>: object pointer, control block
 static SPLayout g_sp[4];
 static_assert(sizeof(std::shared_ptr<ThreadContext>) == sizeof(SPLayout), "shared_ptr layout");
+// K7 light: the refresh alone (no queued records, no buffered events, no clean-up afterwards)
+extern "C" void h_update_only()
+{
+  new (&g_bw.b._options) BackendOptions();
+  new (&g_bw.b._active_thread_contexts_cache) std::vector<ThreadContext*>();
+  ThreadContextManager* m = &g_tcm.m;
+  new (&m->_thread_contexts) std::vector<std::shared_ptr<ThreadContext>>();
+  new (&m->_spinlock) Spinlock();
+  reinterpret_cast<void**>(&g_bw.b._backend_worker_lock)[1] = m;
+  for (uint32_t c = 0; c < NCTX; c++)
+  {
+    bk_init_context(c, 0); bk_static_ring(c);
+    if (vnd_bool()) ctx_at(c)->mark_invalid();                       // its thread has exited; nothing queued, nothing buffered
+    g_sp[c].p = ctx_at(c); g_sp[c].ctrl = nullptr;
+  }
+  auto* spv = reinterpret_cast<std::shared_ptr<ThreadContext>*>(g_sp);
+  m->_thread_contexts._M_impl._M_start = spv; m->_thread_contexts._M_impl._M_finish = spv + NCTX; m->_thread_contexts._M_impl._M_end_of_storage = spv + 4;
+  *reinterpret_cast<bool*>(&m->_new_thread_context_flag) = true;
+  auto& v = g_bw.b._active_thread_contexts_cache;
+  g_tcs4[0] = ctx_at(0);
+  v._M_impl._M_start = g_tcs4; v._M_impl._M_finish = g_tcs4 + 1; v._M_impl._M_end_of_storage = g_tcs4 + 4;      // context 0 was cached before
+  bw()._update_active_thread_contexts_cache();
+  // every registered context is cached, in registration order - also one whose thread has already exited with nothing
+  // pending: only a cached context can be handed back by the clean-up (K6), a skipped one would be retained for ever
+  VASSERT(v.size() == NCTX);
+  for (uint32_t i = 0; i < NCTX; i++) if (i < v.size()) VASSERT(v[i] == ctx_at(i));
+  VASSERT(!m->new_thread_context_flag());
+  VWITNESS(!ctx_at(1)->is_valid());
+}
+
 extern "C" void h_update_cleanup()
 {
   new (&g_bw.b._options) BackendOptions();
@@ -263,7 +293,7 @@ extern "C" void h_update_cleanup()
   m->_thread_contexts._M_impl._M_start = spv; m->_thread_contexts._M_impl._M_finish = spv + NCTX; m->_thread_contexts._M_impl._M_end_of_storage = spv + 4;
   // the cache before the refresh: the contexts registered earlier (a prefix); the rest registered since
   uint32_t known = static_cast<uint32_t>(vnd_range(0, NCTX));
-  bool newflag = known < NCTX ? true : vnd_bool();                   // registering a context raises the flag
+  bool const newflag = true;                                         // a context registered since the last refresh (or a spurious request)
   *reinterpret_cast<bool*>(&m->_new_thread_context_flag) = newflag;
   auto& v = g_bw.b._active_thread_contexts_cache;
   for (uint32_t i = 0; i < NCTX; i++) g_tcs4[i] = ctx_at(i);
